@@ -93,7 +93,12 @@ type Backend struct {
 const (
 	Never1 = 1 << 20
 	Never2 = 1<<20 + 1
+	// ZeroTime: the record carries ExpiresAt = &time.Time{} (a pointer to the zero time, long past)
+	ZeroTime = 1<<20 + 2
 )
+
+// PastExp says whether an expiry selector denotes an instant that has already passed when the record is written.
+func PastExp(e int) bool { return e < 0 || e == ZeroTime }
 
 type mrec struct {
 	val      []byte
@@ -182,6 +187,9 @@ func (m *Model) StateKey() string {
 func (m *Model) expiry(exp int) (has bool, half int64, at *time.Time) {
 	if exp == 0 {
 		return false, 0, nil
+	}
+	if exp == ZeroTime {
+		return true, -(1 << 60), &time.Time{}
 	}
 	if exp == Never1 || exp == Never2 {
 		t := time.Date(2300, 1, 1, 0, 0, 0, 0, time.UTC)
@@ -380,9 +388,9 @@ func (m *Model) Step(o Op) (vio *Vio) {
 		return vio
 	}
 	if m.be.Tick != nil {
-		past := o.Exp < 0
+		past := PastExp(o.Exp)
 		for _, e := range o.Exps {
-			past = past || e < 0
+			past = past || PastExp(e)
 		}
 		if past && (o.K == "Put" || o.K == "PutMany" || o.K == "Cas" || o.K == "Create") {
 			m.be.Tick()
